@@ -168,9 +168,10 @@ class keymap(object):
 
     def encrypt(self, *args, **kwds):
         """use a non-flat scheme for generating a key"""
-        key = (args, kwds) #XXX: pickles larger, but is simpler to unpack
+        sorted_items = self._sorted(list(kwds.items()))
+        # order of kwds must not depend on how the function was called
+        key = (args, dict(sorted_items)) #XXX: pickles larger, but is simpler to unpack
         if self.typed:
-            sorted_items = self._sorted(list(kwds.items()))
             key += (self._tuple(self._type(v) for v in args), \
                     self._tuple(self._type(v) for (k,v) in sorted_items))
         # __chain__
